@@ -208,7 +208,64 @@ pub fn sites(tier: Tier) -> Vec<Site> {
                 roundtrip(acc, i, &label, &format!("{}|{}", t.kind, t.field), &p, compressed, true, None, &replay);
             }));
     }
+    sites.push(mso_name_text_site("C01"));
     sites
+}
+
+/// MSO: a name in one code page, a separator, a text in another, TextStart at the text - for every user
+/// type and mode.  The wire TextStart is the offset of the text in the ENCODED message, the typed one
+/// the offset in the string; typed -> wire -> typed must be the identity and wire -> typed -> wire too.
+/// (Shared by C01 and C02: it is a statement about values and about the meaning of a wire field.)
+pub fn mso_name_text_site(prop: &'static str) -> Site {
+        let names = ["", "Vasya", "\u{412}\u{430}\u{441}\u{44f}", "Kub\u{11b}na", "\u{65e5}\u{672c}", "\u{dc}nal", "\u{3a9}\u{3bc}"];
+        let texts = ["", "hi", "f\u{fc}r", "\u{44c}\u{440}", "\u{11b}\u{161}", "\u{65e5}\u{672c}\u{8a9e}", "se\u{f1}or 8", "a\u{3a9}"];
+        let n = (names.len() * texts.len() * 4 * 2) as u64;
+        return Site::new("mso-name-and-text", n,
+            "IS_MSO with a name from 7 code-page classes, ' : ', a text from 8 classes, TextStart at the text x 4 user types x mode: wire TextStart = encoded length of the name part, message bytes = encoding of the whole message, decode gives the packet back, re-encode the frame",
+            move |i, acc| {
+                use insim::insim::{Mso, MsoUserType};
+                acc.eval();
+                let compressed = i % 2 == 0;
+                let mut j = (i / 2) as usize;
+                let ut = match j % 4 { 0 => MsoUserType::System, 1 => MsoUserType::User, 2 => MsoUserType::Prefix, _ => MsoUserType::O }; j /= 4;
+                let text = texts[j % texts.len()]; j /= texts.len();
+                let name = names[j % names.len()];
+                let prefix = if name.is_empty() { String::new() } else { format!("{name} : ") };
+                let msg = format!("{prefix}{text}");
+                let p = Mso { usertype: ut.clone(), textstart: prefix.len() as u8, msg: msg.clone(), ..Default::default() };
+                let label = format!("MSO {ut:?} {msg:?} textstart {}", prefix.len());
+                let replay = json!({"site": "mso-name-and-text", "index": i, "case": label});
+                let codec = Codec::new(mode_of(compressed));
+                let frame = match crate::report::guard(|| codec.encode(&Packet::Mso(p.clone()))) {
+                    Ok(Ok(f)) => f,
+                    other => { acc.violate(i, format!("{prop}|MSO|name-and-text|encode-failed"), format!("{label}: {:?}", other.map(|r| r.map(|_| ()).map_err(|e| e.to_string()))), replay); return; },
+                };
+                let want_ts = codepages::to_lossy_bytes(&prefix).len();
+                let want_msg = codepages::to_lossy_bytes(&msg);
+                if frame[7] as usize != want_ts {
+                    acc.violate(i, format!("{prop}|MSO|TextStart|typed-to-wire|{ut:?}"), format!("{label}: wire TextStart {} where the name part encodes to {want_ts} byte(s)", frame[7]), replay);
+                    return;
+                }
+                if frame.len() < 8 + want_msg.len() || frame[8..8 + want_msg.len()] != want_msg[..] {
+                    acc.violate(i, format!("{prop}|MSO|Msg|typed-to-wire"), format!("{label}: message bytes {} where the whole message encodes to {}", crate::report::hex(&frame[8..]), crate::report::hex(&want_msg)), replay);
+                    return;
+                }
+                let mut b = BytesMut::from(&frame[..]);
+                match crate::report::guard(|| codec.decode(&mut b)) {
+                    Ok(Ok(Some(Packet::Mso(q)))) => {
+                        if q.msg != msg || q.textstart as usize != prefix.len() || format!("{:?}", q.usertype) != format!("{ut:?}") {
+                            acc.violate(i, format!("{prop}|MSO|name-and-text|typed-wire-typed|{ut:?}"), format!("{label}: decodes to {:?} textstart {}", q.msg, q.textstart), replay);
+                            return;
+                        }
+                        match crate::report::guard(|| codec.encode(&Packet::Mso(q))) {
+                            Ok(Ok(f2)) if f2 == frame => { acc.class("mso-name-and-text"); acc.nontrivial(); },
+                            _ => acc.violate(i, format!("{prop}|MSO|name-and-text|wire-typed-wire"), format!("{label}: the decoded packet re-encodes differently"), replay),
+                        }
+                    },
+                    other => acc.violate(i, format!("{prop}|MSO|name-and-text|decode-failed"), format!("{label}: {}", format!("{other:?}").chars().take(120).collect::<String>()), replay),
+                }
+            });
+
 }
 
 pub fn run(tier: Tier, replay: Option<String>) -> i32 {
